@@ -23,6 +23,14 @@ def bad_lines(opts, r, tier):
         if ty in ("signed", "unsigned") and o["lo"] is not None:
             out.append((n, "less", "%s = %d" % (n, o["lo"] - 1)))
             out.append((n, "greater", "%s = %d" % (n, o["hi"] + 1)))
+            # literals that are congruent modulo 2^32 (and 2^31, 2^16) to a value inside the range: a check made after the
+            # value has been narrowed to the option's 32-bit type would accept them
+            mid = (o["lo"] + o["hi"]) // 2
+            for k, (base, kind) in enumerate([(1 << 32, "greater"), (-(1 << 32), "less"), (1 << 33, "greater"), (1 << 31, "greater"), (1 << 16, "greater")]):
+                if tier == "thorough" or (len(n) + k) % 3 == 0:
+                    v = base + (o["hi"] if k % 2 == 0 else mid if o["lo"] <= mid <= o["hi"] else o["lo"])
+                    if not (o["lo"] <= v <= o["hi"]):
+                        out.append((n, kind, "%s = %d" % (n, v)))
             # references whose (negated) value falls outside the range: code_width is 9999 in the good config
             if n != "code_width":
                 if o["lo"] > -9999:
